@@ -37,7 +37,17 @@ func prfFill(key uint64, off int64, dst []byte) {
 			dst[i] = b
 			continue
 		}
-		switch style {
+		st := style
+		if !PrfForceRaw {
+			// the style changes every 512 bytes, so a stream of a few KiB shows every kind of content
+			st = (style + (o >> 9)) & 7
+		}
+		switch st {
+		case 5:
+			b = byte(o) // all 256 byte values in order
+		case 6:
+			// letters whose case matters
+			b = "aAbBcCdDeEfFgGhHiIjJkKlLmMnNoOpPqQrRsStTuUvVwWxXyYzZ"[(o+uint64(b&3))%52]
 		case 1:
 			if (o>>6)&1 == 0 {
 				b = 0
